@@ -10,7 +10,7 @@ PROP = dict(
                "C06_modulo_findings (exactly one pick per share name unless one share name matches with two different "
                "filters) and the kernel-checked refutation C06_refuted that replays on the real broker "
                "(KF_C06_group_by_filter).  The verdict on the code is the Coq monitor c06_publish: some choice of one member "
-               "per share name must explain exactly who received a copy.",
+               "per share name must explain exactly who received a copy AND the subscription identifiers and QoS on every copy (a member chosen for a group carries that group's identifier / QoS), so a group served through two members or through none is a failing input.",
     level_note="Trusted: as C03.  The finding is kept, not repaired: MQTT defines a shared subscription by ShareName + filter, "
                "the code follows that reading.",
     engines=[dict(hx="route", args=["c06"], model="route_c06"), dict(hx="route", args=["c06t"], model="route_c06")],
